@@ -231,6 +231,12 @@ template<typename T, typename ABI,
 FASTOR_INLINE void vector_setter(SIMDVector<T,ABI> &vec, const T *data, int idx, int ) {
     vec.set(data[idx]);
 }
+// 8 word scalar [complex float: the bitsize of a complex vector is that of its real type]
+template<typename T, typename ABI,
+         typename std::enable_if<sizeof(T)==8 && internal::get_simd_vector_size<SIMDVector<T,ABI>>::bitsize==32,bool>::type=0>
+FASTOR_INLINE void vector_setter(SIMDVector<T,ABI> &vec, const T *data, int idx, int ) {
+    vec.set(data[idx]);
+}
 // 8 word SSE
 template<typename T, typename ABI,
          typename std::enable_if<sizeof(T)==8 && internal::get_simd_vector_size<SIMDVector<T,ABI>>::bitsize==128,bool>::type=0>
@@ -260,6 +266,12 @@ FASTOR_INLINE void vector_setter(SIMDVector<T,ABI> &vec, const T *data, int idx,
 // FASTOR_INLINE void vector_setter(SIMDVector<T,ABI> &vec, const T *data, int idx, int general_stride) {
 //     vec.set(data[idx]);
 // }
+// 16 word scalar [complex double without vectorisation]
+template<typename T, typename ABI,
+         typename std::enable_if<sizeof(T)==16 && internal::get_simd_vector_size<SIMDVector<T,ABI>>::bitsize==64,bool>::type=0>
+FASTOR_INLINE void vector_setter(SIMDVector<T,ABI> &vec, const T *data, int idx, int ) {
+    vec.set(data[idx]);
+}
 // 16 word [complex double]: unlike the real vectors, whose set() follows the _mm_set_* convention (last
 // argument in lane 0), the complex vectors' set() takes the lanes in memory order (first argument in lane 0)
 // 16 word scalar/SSE
@@ -283,6 +295,19 @@ FASTOR_INLINE void vector_setter(SIMDVector<T,ABI> &vec, const T *data, int idx,
             data[idx+2*general_stride],data[idx+3*general_stride],
             data[idx+4*general_stride],data[idx+5*general_stride],
             data[idx+6*general_stride],data[idx+7*general_stride]);
+}
+//----------------------------------------------------------------------------------------------------------------
+
+
+// complex float on a vector ABI: 8 bytes per element like double, but twice as many lanes (bitsize / 32), so the
+// 8 word overloads above do not fit; gather into a buffer and load (lanes in memory order)
+template<typename ABI,
+         typename std::enable_if<(internal::get_simd_vector_size<SIMDVector<std::complex<float>,ABI>>::bitsize>=128),bool>::type=0>
+FASTOR_INLINE void vector_setter(SIMDVector<std::complex<float>,ABI> &vec, const std::complex<float> *data, int idx, int general_stride) {
+    constexpr size_t N = internal::get_simd_vector_size<SIMDVector<std::complex<float>,ABI>>::value;
+    std::complex<float> tmp[N];
+    for (size_t i=0; i<N; ++i) tmp[i] = data[idx+(int)i*general_stride];
+    vec.load(tmp,false);
 }
 //----------------------------------------------------------------------------------------------------------------
 
@@ -330,6 +355,12 @@ template<typename T, typename ABI,
 FASTOR_INLINE void vector_setter(SIMDVector<T,ABI> &vec, const T *data, const std::array<int,1> &a) {
     vec.set(data[a[0]]);
 }
+// 8 word scalar [complex float without vectorisation]
+template<typename T, typename ABI,
+         typename std::enable_if<sizeof(T)==8 && internal::get_simd_vector_size<SIMDVector<T,ABI>>::bitsize==32,bool>::type=0>
+FASTOR_INLINE void vector_setter(SIMDVector<T,ABI> &vec, const T *data, const std::array<int,1> &a) {
+    vec.set(data[a[0]]);
+}
 // 8 word SSE
 template<typename T, typename ABI,
          typename std::enable_if<sizeof(T)==8 && internal::get_simd_vector_size<SIMDVector<T,ABI>>::bitsize==128,bool>::type=0>
@@ -350,6 +381,12 @@ FASTOR_INLINE void vector_setter(SIMDVector<T,ABI> &vec, const T *data, const st
             data[a[3]],data[a[2]],data[a[1]],data[a[0]]);
 }
 
+// 16 word scalar [complex double without vectorisation]
+template<typename T, typename ABI,
+         typename std::enable_if<sizeof(T)==16 && internal::get_simd_vector_size<SIMDVector<T,ABI>>::bitsize==64,bool>::type=0>
+FASTOR_INLINE void vector_setter(SIMDVector<T,ABI> &vec, const T *data, const std::array<int,1> &a) {
+    vec.set(data[a[0]]);
+}
 // 16 word [complex double, set() takes the lanes in memory order] scalar/SSE
 template<typename T, typename ABI,
          typename std::enable_if<sizeof(T)==16 && internal::get_simd_vector_size<SIMDVector<T,ABI>>::bitsize==128,bool>::type=0>
@@ -373,6 +410,19 @@ FASTOR_INLINE void vector_setter(SIMDVector<T,ABI> &vec, const T *data, const st
 //----------------------------------------------------------------------------------------------------------------
 
 
+
+
+// complex float on a vector ABI [see the strided overload]
+template<typename ABI,
+         typename std::enable_if<(internal::get_simd_vector_size<SIMDVector<std::complex<float>,ABI>>::bitsize>=128),bool>::type=0>
+FASTOR_INLINE void vector_setter(SIMDVector<std::complex<float>,ABI> &vec, const std::complex<float> *data,
+        const std::array<int,internal::get_simd_vector_size<SIMDVector<std::complex<float>,ABI>>::value> &a) {
+    constexpr size_t N = internal::get_simd_vector_size<SIMDVector<std::complex<float>,ABI>>::value;
+    std::complex<float> tmp[N];
+    for (size_t i=0; i<N; ++i) tmp[i] = data[a[i]];
+    vec.load(tmp,false);
+}
+//----------------------------------------------------------------------------------------------------------------
 
 
 // Scatter operations
